@@ -18,6 +18,10 @@ CLAIMED = {
          ASMTECH, "7 C05"),
  "C13": ("termination of the data-dependent sizing loop is a liveness property of spec/AsmSizing.tla checked by TLC (plus bounded-progress invariant); the explored programs, PCR distance sweeps, random valid programs, single-line mutations and random lines are run under a watchdog and TLC judges the outcome clause (ok | parse | translation, diagnostic names a statement); CLI sample as subprocesses: diagnostic => exit != 0, no output file",
          ASMTECH + "; CLI exit-status / output-file observation", "7 C13"),
+ "C06": ("spec/Tape.tla: the tape writer as a block-by-block state machine and a CLOAD-like checksum-verifying scanner; TLC checks at every block boundary that the stream written so far scans to exactly the files written (BLK=3, marker-byte alphabet, all layouts); tool-written tapes (boundary lengths, marker contents, all address/type variants) are scanned by the spec and the tool's own listing compared; spec-written streams with arbitrary leaders/gaps are listed by the tool",
+         "TLC model checking of Tape writer/scanner + TLC-written streams replayed into the tool's reader + TLC validation of tool-written tapes", "7 C06"),
+ "C14": ("same runs as C06, structural clauses: the spec's scanner (sync, type, length, payload, checksum, trailer, block order, <=255-byte payloads, 15-byte name block) must accept every tape the tool writes, recover exactly the files, and count 2 + ceil(len/255) blocks per file; chunking law checked by TLC for all 65536 lengths",
+         "TLC model checking of Tape writer/scanner + exhaustive chunking law + TLC validation of tool-written tapes", "7 C14"),
 }
 NOT_YET = {}
 props = [json.loads(l) for l in open(V + "/properties.jsonl")]
